@@ -7,6 +7,7 @@ pub mod model;
 pub mod gen;
 pub mod engine;
 pub mod history;
+pub mod selftest;
 pub mod realfs;
 pub mod drive;
 pub mod oracle;
@@ -95,6 +96,10 @@ fn verif_main(args: &[String]) -> i32
     if args[0] == "bench"
     {
         return bench();
+    }
+    if args[0] == "selftest"
+    {
+        return selftest::run();
     }
     let id = args[0].clone();
     let mut tier = match std::env::var("VERIF_TIER").ok().as_deref()
